@@ -265,10 +265,20 @@ def m_range(E, a, kw):
 @model('enumerate')
 def m_enumerate(E, a, kw):
     sq = E.list_val(a[0])
+    st = a[1] if len(a) > 1 else kw.get('start', VInt(0))
+    st = E.as_int(st)
     c = sq.clen()
     if c is not None:
-        return seq_items('list', [VTuple([VInt(k), E.seq_elem_value(sq, z3.IntVal(k))]) for k in range(c)])
-    return VSeq('list', sq.n, lambda i, sq=sq: VTuple([VInt(I(i)), E.seq_elem_value(sq, i)]))
+        return seq_items('list', [VTuple([VInt(z3.simplify(st + k)), E.seq_elem_value(sq, z3.IntVal(k))]) for k in range(c)])
+    return VSeq('list', sq.n, lambda i, sq=sq: VTuple([VInt(z3.simplify(st + I(i))), E.seq_elem_value(sq, i)]))
+
+
+@model('reversed')
+def m_reversed(E, a, kw):
+    sq = E.list_val(a[0])
+    if sq.kind != 'list':
+        sq = VSeq('list', sq.n, lambda i, s=sq: E.seq_elem_value(s, i)) if sq.items is None else seq_items('list', [E.seq_elem_value(sq, z3.IntVal(k)) for k in range(len(sq.items))])
+    return E.new_list(seq_reverse(sq))
 
 
 @model('itertools.cycle')
@@ -506,6 +516,8 @@ def reify(s, n=None):
 
 
 def int_of_seq(E, v, base):
+    if base == 10 and v.tag and v.tag[0] in ('dec', 'dec0') and v.kind == 'str':
+        return VInt(v.tag[1])              # library identity: int(str(n)) = n, int(format(n, '0Wd')) = n
     cs = conc_str(v)
     if cs is not None:
         try:
@@ -1447,3 +1459,104 @@ def m_to_bytes(E, a, kw):
 def m_from_bytes(E, a, kw):
     from . import models_bv
     return models_bv.from_bytes(E, a, kw)
+
+
+# ---- copy.deepcopy, open(), csv (plumbing of the command-line tools) ------------------------------------
+def _deepcopy(E, v, memo):
+    if isinstance(v, VRef):
+        if v.oid in memo:
+            return memo[v.oid]
+        k = E.kind_of(v)
+        if k == 'dict':
+            d = E.getf(v, 'val')
+            if not isinstance(d, dict):
+                raise Unsupported('deepcopy of a dict with symbolic keys')
+            r = E.new_dict({})
+            memo[v.oid] = r
+            E.setf(r, 'val', {kk: _deepcopy(E, vv, memo) for kk, vv in d.items()})
+            return r
+        if k == 'list':
+            sq = E.fix_len(E.getf(v, 'val'))
+            if sq.clen() is None:
+                raise Unsupported('deepcopy of a symbolic-length list')
+            r = E.new_list(seq_items('list', [_deepcopy(E, sq.at(z3.IntVal(i)), memo) for i in range(sq.clen())]))
+            memo[v.oid] = r
+            return r
+        raise Unsupported('deepcopy of %s' % k)
+    if isinstance(v, VTuple):
+        return VTuple([_deepcopy(E, x, memo) for x in v.items])
+    return v          # immutable values
+
+
+@model('copy.deepcopy')
+def m_deepcopy(E, a, kw):
+    return _deepcopy(E, a[0], {})
+
+
+@model('open')
+def m_open(E, a, kw):
+    """a named file: one File cell per name for the duration of the path (ghost file system E.ghost['fs'])"""
+    name = a[0]
+    mode = conc_str(a[1]) if len(a) > 1 else conc_str(kw.get('mode', lift('r')))
+    key = conc_str(name)
+    if key is None:
+        key = ('sym', id(name))
+    fs = E.ghost.setdefault('fs', {})
+    if key not in fs:
+        binary = 'b' in mode
+        fs[key] = E.new_file(E.fresh_seq('bytes', 'file') if 'r' in mode else seq_lit('bytes', b''), 0)
+        E.setf(fs[key], 'mode', lift(mode))
+        E.setf(fs[key], 'name', name)
+        if 'encoding' in kw:
+            E.setf(fs[key], 'encoding', kw['encoding'])
+    E.ghost.setdefault('opened', []).append((key, mode))
+    return fs[key]
+
+
+@model('csv.DictReader')
+def m_dictreader(E, a, kw):
+    """rows of a CSV file as dicts of strings: the rows are whatever the ghost `csv_rows` of the file object says
+    (the csv module's parsing of quotes / commas is an assumed text round trip)"""
+    f = a[0]
+    rows = E.cell(f).get('_g_csv_rows')
+    if rows is None:
+        raise Unsupported('DictReader over a file without ghost rows')
+    return E.new_cell({'__kind__': 'iter', 'items': list(rows)})
+
+
+@model('csv.DictWriter')
+def m_dictwriter(E, a, kw):
+    f = a[0]
+    fn = kw.get('fieldnames', a[1] if len(a) > 1 else None)
+    return E.new_cell({'__kind__': 'dictwriter', 'file': f, 'fieldnames': fn, 'extrasaction': kw.get('extrasaction', lift('raise')),
+                       'lineterminator': kw.get('lineterminator', lift('\r\n')), 'rows': VTuple([]), 'header': FALSE})
+
+
+@method('dictwriter', 'writeheader')
+def m_dw_header(E, a, kw):
+    E.setf(a[0], 'header', TRUE)
+    return NONE
+
+
+@method('dictwriter', 'writerow')
+def m_dw_row(E, a, kw):
+    w, row = a
+    d = E.getf(row, 'val')
+    if not isinstance(d, dict):
+        raise Unsupported('writerow of a dict with symbolic keys')
+    names = [conc_str(x) for x in E.iter_items(E.getf(w, 'fieldnames'))]
+    extra = [k for k in d if k not in names]
+    if extra and conc_str(E.getf(w, 'extrasaction')) != 'ignore':
+        _raise(E, ValueError, 'dict contains fields not in fieldnames')
+    E.setf(w, 'rows', VTuple(E.getf(w, 'rows').items + [row]))
+    return NONE
+
+
+@method('dictwriter', 'writerows')
+def m_dw_rows(E, a, kw):
+    raise Unsupported('DictWriter.writerows')
+
+
+@model('collections.Counter')
+def m_counter(E, a, kw):
+    raise Unsupported('collections.Counter')
